@@ -161,11 +161,11 @@ func minInt(a, b int) int {
 
 // SplitSpec: one payload, a list of cut points, a mode and a write method.
 type SplitSpec struct {
-	In     B     `json:"in"`
-	Cuts   []int `json:"cuts"`   // ascending offsets in [0,len]
-	Unsafe bool  `json:"unsafe"` // UnsafeEscaped vs SafeEscaped
-	Str    []bool `json:"str"`   // per chunk: WriteString instead of Write
-	Pre    B     `json:"pre"`    // raw prefix written first (library-produced fragment)
+	In     B      `json:"in"`
+	Cuts   []int  `json:"cuts"`   // ascending offsets in [0,len]
+	Unsafe bool   `json:"unsafe"` // UnsafeEscaped vs SafeEscaped
+	Str    []bool `json:"str"`    // per chunk: WriteString instead of Write
+	Pre    B      `json:"pre"`    // raw prefix written first (library-produced fragment)
 }
 
 func writeSplit(s *SplitSpec, cuts []int) []byte {
